@@ -197,6 +197,7 @@ def run(res, tier):
           "_5": {("disc",): lim6[0], (("v", "Some"), ("f", 0)): lim6[1]}}
     paths = E.explore(body, max_visits=visits, nomut=[r"."], arg_values=av, pure=[r"Prefix::is_v4$", r"Prefix::len$"])
     n_roa = 0
+    native_done = {}
     for i, p in enumerate(paths):
         if p.kind != "return":
             continue
@@ -213,9 +214,13 @@ def run(res, tier):
             ln = [e for e in evs if re.search(r"Prefix::len$", e.name)]
             pushed = any(e.kind == "call" and re.search(r"Vec::<.*>::push$|Vec::push$", e.name) for e in evs)
             if not v4:
-                res.inconclusive.append("add_roa iteration without is_v4")
-                continue
-            isv4 = v4[-1].dest.get(())
+                # the origin's family is not consulted in this iteration: it is a free Boolean (both families can
+                # occur here unless other calls on the path say otherwise - hence the native replay below)
+                isv4 = z3.Bool("origin_family_v4_%d_%d" % (i, n_roa))
+                family_free = True
+            else:
+                isv4 = v4[-1].dest.get(())
+                family_free = False
             if ln and mir.is_z(ln[-1].dest.get(())):
                 L = ln[-1].dest.get(())
                 too_long = z3.Or(z3.And(isv4, lim4[0] == 1, z3.UGT(L, lim4[1])),
@@ -225,12 +230,30 @@ def run(res, tier):
                 too_long = z3.BoolVal(False)
                 if E.feasible(p.cond, z3.Or(z3.And(isv4, lim4[0] == 1), z3.And(z3.Not(isv4), lim6[0] == 1))):
                     too_long = None
+            if too_long is None and family_free:
+                too_long = z3.BoolVal(False)      # decided together with the family-free candidate below
             if too_long is None:
                 fn = mprop.write_cex(res, "add_roa_limit_unread_%d" % i, p, E, "prefix length not compared although a limit is configured")
                 res.violation("mir:compose:length-limit-not-applied", "the prefix-length limit is not applied to an origin", fn)
                 continue
             m = E.model(p.cond, too_long) if pushed else E.model(p.cond, z3.Not(too_long))
-            if m is not None:
+            if m is not None and family_free:
+                if "family_free" not in native_done:
+                    import nativetest
+                    native_done["family_free"] = nativetest.run_native_test("native_c09", "c09_native_limits_per_family")
+                    res.evaluations += 1
+                failed, passed, out = native_done["family_free"]
+                what = ("the limit applied to an origin does not depend on that origin's address family: "
+                        + ("an origin longer than its family's limit is kept" if pushed else "an origin within its family's limit is dropped"))
+                if failed:
+                    if "reported" not in native_done:
+                        native_done["reported"] = True
+                        fn = mprop.write_cex(res, "add_roa_limit_family_%d" % i, p, E, what + "\n\nnative replay (mixed-family ROA content through the real add_roa):\n" + out[-3000:], m)
+                        res.violation("mir:compose:length-limit-wrong-family", "prefix-length limit: " + what + "; reproduced natively with a ROA carrying both families", fn)
+                elif "noted" not in native_done:
+                    native_done["noted"] = True
+                    res.inconclusive.append("add_roa does not consult the origin's family per origin; candidate (%s) did not reproduce natively" % what)
+            elif m is not None:
                 what = "origin longer than the limit is kept" if pushed else "origin within the limit is dropped"
                 fn = mprop.write_cex(res, "add_roa_limit_%d" % i, p, E, what, m)
                 res.violation("mir:compose:length-limit-wrong:" + ("kept" if pushed else "dropped"), "prefix-length limit: " + what, fn)
